@@ -89,7 +89,7 @@ void harness(void)
             __CPROVER_assert(g_e_h == c06_event_recorder && g_e_d == (void *)&g_cbdata, "k-th event: callback and data passed on");
             if (E->conv == 'p') {
                 __CPROVER_assert(g_e_u == E->u && g_e_base == 16 && g_e_signed == 0 && g_e_prec == g_c06_p_minlen &&
-                                 (g_e_ops & (C06_OPS_FMT_MASK & ~(C06_OPS_PREC))) == ((ops_want | C06_OPS_SPEC | C06_OPS_ZERO) & ~C06_OPS_PREC),
+                                 (g_e_ops & (C06_OPS_FMT_MASK & ~(C06_OPS_PREC))) == (((ops_want | g_c06_p_set) & ~g_c06_p_clr) & ~C06_OPS_PREC),
                                  "k-th event: %p takes the pointer from its slot, fixed 0x form");
             } else {
                 __CPROVER_assert((g_e_ops & C06_OPS_FMT_MASK) == ops_want, "k-th event: flags, precision-given and upper-case bits as written");
